@@ -68,7 +68,13 @@ def replay_case(case):
 
 
 def _replay_chunk(cases):
-    return [replay_case(c) for c in cases]
+    out = []
+    for c in cases:
+        try:
+            out.append(replay_case(c))
+        except Exception as e:   # find_affected_components raises on a valid table: a verdict, not a crash of the check
+            out.append(([("raises", {"entry": "find_affected_components", "error": f"{type(e).__name__}: {e}"[:300]})], False))
+    return out
 
 
 def record(args):
